@@ -180,6 +180,26 @@ def history_clause(cl, rng, n, replay):
     for j in range(n):
         h, f, A = gen_object(rng)
         hist = []
+        if j % 4 == 1:
+            # peak-finding options handed over in a dictionary the caller keeps and edits: the second search is made with the values the dictionary holds *then*
+            from scipy.signal import find_peaks
+            kw = {"prominence": 0.02}
+            h.update_peaks_bounded(search_range_in_hz=(None, None), find_peaks_kwargs=kw)
+            kw["prominence"] = float(rng.choice([0.8, 1.5, 2.5]))
+            h.update_peaks_bounded(search_range_in_hz=(None, None), find_peaks_kwargs=kw)
+            hist.append(("find_peaks_kwargs edited in the caller's dictionary", dict(kw)))
+            for i, row in enumerate(A):
+                pk, _ = find_peaks(row, prominence=kw["prominence"])
+                want = None if len(pk) == 0 else float(f[pk[np.argmax(row[pk])]])
+                got = h._main_peak_frq[i]
+                if (want is None) != bool(np.isnan(got)) or (want is not None and got != want) or bool(h.valid_peak_boolean_mask[i]) != (want is not None):
+                    cl.fail("hvsrpy.hvsr_traditional.HvsrTraditional.update_peaks_bounded", f"window {i}: after the caller raised the prominence in the dictionary it had handed over and "
+                            f"searched again, the stored peak ({got}) / mask ({bool(h.valid_peak_boolean_mask[i])}) is not that of the new options ({want})",
+                            signature="stat:kwargs-alias", history=hist)
+                    return
+            # back to the default options for the histories below (their oracle is the plain local-maximum rule)
+            h.update_peaks_bounded(search_range_in_hz=(None, None), find_peaks_kwargs=None)
+            hist.append(("range", None, None))
         for rounds in range(3):
             hist += apply_history(rng, h, f, steps=int(rng.integers(0, 3)))
             cl.case((j, rounds, tuple(map(str, hist))), nontrivial=len(hist) > 0)
